@@ -133,22 +133,51 @@ class FakeServer:
         pass
 
 
-class OneShotConnection:
-    """Stands for amsg.WorkerConnection inside worker_proc.worker(): hands
-    over exactly one request and collects the reply."""
+class FakeSock:
+    """The worker side of the unix socket, under the REAL amsg.WorkerConnection: what the
+    hub has written and the worker has not read yet is handed over by recv(); after that
+    recv() reports EOF, so worker_proc.worker() returns to the simulator; what the worker
+    sends (after the 16-byte pid/version greeting, which the simulator delivers itself when
+    the process connects) are its replies."""
 
-    def __init__(self, req_id, payload):
-        self.req = (req_id, memoryview(payload))
-        self.out = None
+    def __init__(self, frames):
+        self.buf = b''.join(frames)
+        self.sent = []
+        self.greeted = False
+        self.closed = False
 
-    def iter_request(self):
-        yield self.req
-
-    def reply(self, req_id, payload):
-        self.out = (req_id, payload)
-
-    def abort(self):
+    def connect(self, name):
         pass
+
+    def sendall(self, data):
+        data = bytes(data)
+        if not self.greeted:
+            self.greeted = True
+            if len(data) != 16:
+                raise HarnessError('unexpected greeting from WorkerConnection')
+            return
+        self.sent.append(data)
+
+    def recv(self, n):
+        out, self.buf = self.buf[:n], self.buf[n:]
+        return out
+
+    def close(self):
+        self.closed = True
+
+
+class SocketSeam:
+    """``socket`` as seen by amsg.py in a simulated worker process."""
+    AF_UNIX = 1
+
+    def __init__(self, world):
+        self.world = world
+
+    def socket(self, family=None, *a):
+        sock = self.world._sock_for_worker
+        if sock is None:
+            raise HarnessError('a socket was opened outside a simulated worker process')
+        return sock
 
 
 class World:
@@ -219,8 +248,14 @@ class World:
         c['ndrop'] = t.draw(3, 'ndrop') if faulty and c['pool'] == 'multitenant' and t.draw(2, 'f_drop') else 0
         c['ntemplatecrash'] = (t.draw(2, 'ntemplatecrash') if faulty and c['pool'] != 'adaptive'
                                and t.draw(4, 'f_tmpl') == 3 else 0)
-        c['pcancel'] = t.pick([5, 15, 40], 'pcancel') if st == 'cancel' else 0
+        c['pcancel'] = t.pick([5, 15, 40], 'pcancel') if st in ('cancel', 'cancel_batch') else 0
         c['ppool'] = t.pick([3, 10, 25], 'ppool') if st == 'poolfault' else 0
+        # stratum cancel_batch: a worker whose callers gave up has several requests waiting in its
+        # socket; one recv() hands all of them to the worker loop, which serves them back to back
+        c['batch'] = st == 'cancel_batch'
+        if c['batch']:
+            c['pcancel'] = t.pick([25, 40, 60], 'pcancel_batch')
+            c['svc'] = t.pick([20, 40], 'svc_batch')
         self.cfg = c
         return c
 
@@ -255,8 +290,11 @@ class World:
         import os as _os
         OSProxy.path = _os.path
         P.os = OSProxy
-        self._conn_for_worker = None
-        amsg.WorkerConnection = lambda sockname, version: self._conn_for_worker
+        self._sock_for_worker = None
+        if not hasattr(amsg, '_verif_real_WorkerConnection'):
+            amsg._verif_real_WorkerConnection = amsg.WorkerConnection
+        amsg.WorkerConnection = amsg._verif_real_WorkerConnection    # the real class, over a fake socket
+        amsg.socket = SocketSeam(self)
 
         loop.create_unix_server = self.create_unix_server
         loop.subprocess_exec = self.subprocess_exec
@@ -570,6 +608,15 @@ class World:
         if status != 'ok':
             return None
         self.ok += 1
+        try:
+            return self._check_call_result(tag, method, snap, res)
+        except (AttributeError, TypeError, ValueError, IndexError, KeyError) as e:
+            # not even the shape of a reply to this kind of request: it was meant for another one
+            self.violate('E1', 'reply-of-another-request',
+                         f'request {tag} ({method}) was answered with {res!r:.200} ({type(e).__name__}: {e})')
+            return None
+
+    def _check_call_result(self, tag, method, snap, res):
         if method == 'compile':
             echo = res[0]
         elif method == 'compile_graphql':
@@ -626,7 +673,13 @@ class World:
                     continue
                 return
             self.ok += 1
-            units, pstate, sid = res
+            try:
+                units, pstate, sid = res
+                units = tuple(units)
+            except (TypeError, ValueError) as e:
+                self.violate('E1', 'reply-of-another-request',
+                             f'request {tag} (compile_in_tx) was answered with {res!r:.200} ({type(e).__name__}: {e})')
+                return
             exp = ('echo_tx', tag, real_pickle.loads(root), txid, seen, txid)
             if tuple(units) != exp:
                 got = tuple(units)
@@ -871,26 +924,38 @@ class World:
         methname, args = real_pickle.loads(payload)
         tag = self.tag_of(methname, args)
         meta = self.req_meta.get(tag)
-        if meta is not None:
-            meta['worker'] = wk.pid
-            if tag in self.cancelled_tags:
-                self.wfaults[wk.pid].append('cancelled')
-            if (self.req_opts(methname, args) or {}).get('fail'):
-                self.wfaults[wk.pid].append('compile_error')
-            if not meta.get('done'):
-                self.open_by_worker[wk.pid].add(tag)
         is_init = methname == '__init_worker__'
-        if not is_init:
-            self.note_transfer(methname, args)
+        extra = []          # further requests read from the socket in the same recv()
+        if c.get('batch') and wk.inbox and not is_init:
+            for _ in range(t.draw(len(wk.inbox) + 1, 'batch_extra')):
+                rid2, payload2 = wk.inbox.popleft()
+                m2, a2 = real_pickle.loads(payload2)
+                extra.append((rid2, payload2, m2, a2, self.req_meta.get(self.tag_of(m2, a2))))
+            if extra:
+                self.probes['requests_served_in_one_read'] += 1 + len(extra)
+        for (mn, ar, mt) in [(methname, args, meta)] + [(x[2], x[3], x[4]) for x in extra]:
+            if mt is not None:
+                mt['worker'] = wk.pid
+                tg = self.tag_of(mn, ar)
+                if tg in self.cancelled_tags:
+                    self.wfaults[wk.pid].append('cancelled')
+                if (self.req_opts(mn, ar) or {}).get('fail'):
+                    self.wfaults[wk.pid].append('compile_error')
+                if not mt.get('done'):
+                    self.open_by_worker[wk.pid].add(tg)
+            if mn != '__init_worker__':
+                self.note_transfer(mn, ar)
         if not is_init and c['pcrash'] and t.chance(c['pcrash'], 100, 'crash_before'):
             self.faults['crash_before_request'] += 1
-            if meta is not None:
-                meta['injected'].add('killed')
+            for mt in [meta] + [x[4] for x in extra]:
+                if mt is not None:
+                    mt['injected'].add('killed')
             self.kill(wk, respawn=True)
             return
-        # arm at most one worker-side fault for this request
+        # arm at most one worker-side fault for this request (none when several are served at once:
+        # the fault could not be attributed to one of them)
         self.armed = None
-        if not is_init and meta is not None:
+        if not is_init and meta is not None and not extra:
             if c['pdecode'] and t.chance(c['pdecode'], 100, 'decode_fault'):
                 self.armed = ['worker_proc', 'loads', 0, 'decode_fault', meta]
             elif c['psync'] and t.chance(c['psync'], 100, 'sync_fault'):
@@ -898,27 +963,32 @@ class World:
             elif c['preply'] and t.chance(c['preply'], 100, 'reply_fault'):
                 self.armed = ['worker_proc', 'dumps', 0, 'reply_fault', meta]
         self.current_worker = wk
-        con = OneShotConnection(req_id, payload)
-        self._conn_for_worker = con
+        sock = FakeSock([PK(len(p_) + 8) + PK(r_) + p_ for r_, p_ in [(req_id, payload)] + [(x[0], x[1]) for x in extra]])
+        self._sock_for_worker = sock
         try:
             self.mods['worker_proc'].worker('sock', wk.version, wk.mod.get_handler)
         finally:
-            self._conn_for_worker = None
+            self._sock_for_worker = None
             self.current_worker = None
             self.armed = None
         self.ev('served', methname, tag or 0)
-        if con.out is None:
-            raise HarnessError('worker produced no reply')
+        replies = [bytes(m) for m in self.mods['amsg'].MessageStream().feed_data(b''.join(sock.sent))]
+        if len(replies) != 1 + len(extra):
+            raise HarnessError(f'worker produced {len(replies)} replies to {1 + len(extra)} request(s)')
         if not is_init and c['pcrash'] and t.chance(c['pcrash'], 100, 'crash_after'):
             self.faults['crash_after_request'] += 1
-            if meta is not None:
-                meta['injected'].add('killed')
+            for mt in [meta] + [x[4] for x in extra]:
+                if mt is not None:
+                    mt['injected'].add('killed')
             self.kill(wk, respawn=True)
             return
-        rid, out = con.out
-        frame = PK(len(out) + 8) + PK(rid) + out
         wk.busy = False
-        self.deliver(wk, rid, frame, is_init, meta)
+        for reply, mt in zip(replies, [meta] + [x[4] for x in extra]):
+            if not wk.alive or not wk.connected:
+                break
+            rid, out = UNPK(reply[:8])[0], reply[8:]
+            frame = PK(len(out) + 8) + PK(rid) + out
+            self.deliver(wk, rid, frame, is_init, mt)
         self.pump(wk)
 
     def note_transfer(self, methname, args):
